@@ -55,6 +55,11 @@ type InheritCfg struct {
 	FrameAlias []int `json:"frame_alias,omitempty"`
 	// UParent: the blocks of the used template "u" end with parent().
 	UParent bool `json:"u_parent,omitempty"`
+	// Guard: the overriding blocks of the children stand under control flow at
+	// the top level (1: if true, 2: if false, 3: a two-pass loop, 4: the else
+	// branch of a loop over nothing): they are defined all the same, and
+	// rendered only where the root places them.
+	Guard int `json:"guard,omitempty"`
 }
 
 var blockNames = []string{"a", "b", "c", "d"}
@@ -132,7 +137,18 @@ func BuildInherit(c *InheritCfg) *m.Program {
 				if c.FilterFirst {
 					b.Body = []*m.N{{K: "filter", Names: levelFilters[lvl%len(levelFilters)], Body: b.Body}}
 				}
-				t.Body = append(t.Body, b)
+				switch c.Guard {
+				case 1:
+					t.Body = append(t.Body, &m.N{K: "if", X: m.EName("sel"), Body: []*m.N{whoCall(), b}})
+				case 2:
+					t.Body = append(t.Body, &m.N{K: "if", X: m.EUn("not", m.EName("sel")), Body: []*m.N{b}, HasElse: true, Else: []*m.N{whoCall()}})
+				case 3:
+					t.Body = append(t.Body, &m.N{K: "for", S: "g", X: m.EBin("..", m.ENum(1), m.ENum(2)), Body: []*m.N{b, whoCall()}})
+				case 4:
+					t.Body = append(t.Body, &m.N{K: "for", S: "g", X: m.EArr(), Body: []*m.N{whoCall()}, HasElse: true, Else: []*m.N{b}})
+				default:
+					t.Body = append(t.Body, b)
+				}
 				if c.Outside {
 					t.Body = append(t.Body, m.NText(" "))
 				}
@@ -224,6 +240,9 @@ func GenInherit(t *rapid.T) *InheritCfg {
 	c.BlockFn = rapid.Bool().Draw(t, "blockfn")
 	c.Outside = rapid.Bool().Draw(t, "outside")
 	c.NestOver = rapid.Bool().Draw(t, "nestover")
+	if rapid.IntRange(0, 3).Draw(t, "guarded") == 0 {
+		c.Guard = rapid.IntRange(1, 4).Draw(t, "guard")
+	}
 	if c.L >= 3 && rapid.IntRange(0, 2).Draw(t, "multiuse") == 0 {
 		c.UseLevels = rapid.IntRange(1, (1<<uint(c.L-1))-1).Draw(t, "uselevels")
 		if c.UseNames == 0 {
